@@ -38,6 +38,9 @@ def corpus():
         b"A ?", b"A;;B", b";A", b"A\nB", b"A\n", b"\n", b"", b"   ", b"A\x00", b"A\xff", b"A 1\xff", b"A,B", b"A (", b"A(1)", b"A 1:2", b"A 'x':",
         b"1A", b"A 1 \n", b"A 1e5e", b"A 1 e5", b"A 1.e5", b"A -.e5", b"A +", b"A 00012", b"a:b:c:d:e?  #H1f , 'q' ,(x) , #13abc , ZZ , 1 s\n",
     ]
+    msgs += [b"A #" + bytes([b]) + d for b in range(256) for d in (b"FF", b"17", b"01")]
+    msgs += [b"A (1;B 2)", b"A (;)", b"A (1,2;B 3);C", b"A #10 ", b"A #10 ,7", b"A #10abc", b"A #10'abc'", b"A #200,1", b"A #10;B", b"A #10,5", b"A? ,1", b"*A? , 1", b"A:B? ,1", b"A ,1",
+             b"A? 1,", b"A 1 ,", b"*RST;:A:B?", b"A:B?;*RST;C:D?;E?", b"*RST;A", b"A;;B", b"A; ;B", b"*RST;;A", b"A:B;;C"]
     out = [L(m) for m in msgs]
     out += [L(m, "p") for m in [b"1,2", b" 1", b"ABC,1 V", b",1", b"'s' x", b"#H1F;", b"(1:2),3"]]
     return out
